@@ -294,10 +294,11 @@ Definition exec_step (c : lchoice) (s : st) : option (st * list ev) :=
       | _ => None
       end
   | XGoOnline consumed =>
-      (* SetRemoteOnline(true); [fix] request ctx already cancelled: offline again, ContextCancelError;
-         else startRemoteRequest; RetryLastLoad (requeues the item a remote attempt consumed) *)
-      if rctx s then Some (s_xpc (XRelease false) s, [])
-      else Some (s_xpc (XLoad true) (s_ropen true (if consumed then s_rq (S (rq s)) s else s)), [EvSend ONew])
+      (* SetRemoteOnline(true): the remote queue (items of an earlier response, the last consumed item) is
+         cleared [fix cb5b48f]; [fix 1f71cc8] request ctx already cancelled: offline again,
+         ContextCancelError; else startRemoteRequest; RetryLastLoad (nothing left to requeue) *)
+      if rctx s then Some (s_xpc (XRelease false) (s_rq 0 s), [])
+      else Some (s_xpc (XLoad true) (s_ropen true (s_rq 0 s)), [EvSend ONew])
   | XSendErr e sent => if rctx s then Some (s_xpc (XRelease false) s, []) else None
   | XHooks ok sent =>
       let hookerr := ok && match c with CHookErr => true | _ => false end in
